@@ -16,6 +16,7 @@ import Dassh.Model.HotspotSort
 import Dassh.Model.FlowSplit
 import Dassh.Model.AcceptRegions
 import Dassh.Model.PowerRows
+import Dassh.Model.AcceptFuel
 
 open Dassh.Model
 
@@ -177,6 +178,29 @@ def handle (line : String) : String :=
            " ; ".intercalate (cell.map showFloats))
        | none => "bad-op")
     | _, _ => "bad-op"
+  | "fuel" :: rest =>
+    -- fuel puLimit inner gap fcgap hasClad(0/1) hasGapMaterial(0/1) | r_frac.. | pu_frac.. | zr_frac.. | porosity..
+    let rec parts (ws : List String) (cur : List String) (acc : List (List String)) : List (List String) :=
+      match ws with
+      | [] => (cur.reverse :: acc).reverse
+      | "|" :: t => parts t [] (cur.reverse :: acc)
+      | w :: t => parts t (w :: cur) acc
+    match parts rest [] [] with
+    | [hd, r, pu, zr, po] =>
+      (match hd, floatList r, floatList pu, floatList zr, floatList po with
+       | [lim, inner, gap, fcgap, hc, hg], some r, some pu, some zr, some po =>
+         (match floatList [lim, inner, gap, fcgap] with
+          | some [lim, inner, gap, fcgap] =>
+            (match AcceptFuel.checkFuel lim { innerRadius := inner, gap := gap, fcgap := fcgap, rFrac := r, puFrac := pu, zrFrac := zr,
+                                              porosity := po, hasClad := hc == "1", hasGapMaterial := hg == "1" } with
+             | .ok () => "ok"
+             | .error e => "err " ++ (match e with
+                | .gapTooThick => "gap" | .notIncreasing => "increasing" | .rFracRange => "rfrac" | .empty => "empty"
+                | .lengthMismatch => "length" | .noClad => "noclad" | .noGapMaterial => "nogapmat" | .fractionRange => "fraction"
+                | .puTooHigh => "pu"))
+          | _ => "bad-op")
+       | _, _, _, _, _ => "bad-op")
+    | _ => "bad-op"
   | "clamp" :: rest =>
     -- clamp m | lims...   (Orifice.clampGroup)
     let (hd, ls) := splitBar rest
